@@ -96,6 +96,10 @@ def byte_at(b, j):
     raise Unsupported('byte_at ' + b.kind)
 
 
+def bytes_desc_name(b):
+    return {'keyraw': lambda: str(b.kid), 'pubraw': lambda: 'pub(' + bytes_desc_name(b.sk.raw) + ')'}.get(b.kind, lambda: getattr(b, 'name', '') or b.kind)()
+
+
 def unrollable(b):
     return isinstance(b, (bytes, bytearray)) or (isinstance(b, SBytes) and b.kind in ('hex', 'raw'))
 
@@ -1831,6 +1835,30 @@ def sym_method(it, fr, obj, attr, args, kw):
             if obj.kind == 'enc':
                 return obj.src
             return SText((('decoded', obj),))
+        if attr in ('rstrip', 'lstrip', 'strip') and unrollable(obj) and len(args) <= 1 and not kw and (not args or isinstance(args[0], (bytes, bytearray))):
+            chars = bytes(args[0]) if args else b' \t\n\r\x0b\x0c'
+            inset = lambda e: zor([e == c for c in set(chars)])
+            C, ln = cap(obj), bytes_len(it, obj)
+            lo, hi = 0, None
+            if attr in ('lstrip', 'strip'):
+                while lo < C and eng.fork(z3.And(ln > lo, inset(byte_at(obj, lo)))):
+                    lo += 1
+            if attr in ('rstrip', 'strip'):
+                for h in range(C, lo - 1, -1):
+                    # h is the end iff everything in [h, ln) is strippable and byte h-1 is not (or h == lo)
+                    if eng.fork(z3.And(ln >= h, zand([z3.Implies(ln > j, inset(byte_at(obj, j))) for j in range(h, C)]),
+                                       z3.BoolVal(True) if h == lo else z3.Not(inset(byte_at(obj, h - 1))))):
+                        hi = h
+                        break
+                else:
+                    hi = lo
+                return SBytes('raw', n=z3.IntVal(hi - lo), bs=[byte_at(obj, j) for j in range(lo, hi)], name=getattr(obj, 'name', '') + '.' + attr)
+            return SBytes('raw', n=ln - lo, bs=[byte_at(obj, j) for j in range(lo, C)], name=getattr(obj, 'name', '') + '.' + attr)
+        if attr in ('rstrip', 'lstrip', 'strip') and obj.kind in ('keyraw', 'pubraw', 'digest', 'sign') and len(args) <= 1 and not kw:
+            # opaque fixed-length bytes: either nothing is stripped, or the result is out of reach of the model
+            if eng.fork(z3.Bool(f'strippable#{attr}#{bytes_desc_name(obj)}')):
+                raise Unsupported('bytes.' + attr + ' removes bytes of an opaque value')
+            return obj
         if attr in ('isalnum', 'lower', 'upper', 'strip'):
             raise Unsupported('bytes.' + attr + ' on symbolic bytes')
         if hasattr(bytes, attr):
